@@ -19,7 +19,9 @@ Tree == << Nd(1, 0, "dir", "d1", ""), Nd(2, 1, "file", "f1.txt", "one\ntwo\n"), 
            Nd(5, 0, "dir", "d3", ""), Nd(6, 5, "file", "f3.txt", "a\nb\nc"), Nd(7, 0, "file", "f0.txt", ""), Nd(8, 3, "dir", "d4", ""),
            Nd(9, 8, "file", "f4.txt", "zz\n"),
            \* an image whose dimensions are read from its content, and a directory that is named like one
-           Nd(10, 0, "file", "p.svg", "<svg xmlns=\"http://www.w3.org/2000/svg\" width=\"5\" height=\"5\"></svg>\n"), Nd(11, 0, "dir", "dd.svg", "") >>
+           Nd(10, 0, "file", "p.svg", "<svg xmlns=\"http://www.w3.org/2000/svg\" width=\"5\" height=\"5\"></svg>\n"), Nd(11, 0, "dir", "dd.svg", ""),
+           \* links that lead nowhere are entries like any other: listing them is not a failure
+           Nd(12, 0, "symlink", "dang", "") @@ [target |-> -1, tstyle |-> "rel"], Nd(13, 3, "symlink", "dang2", "") @@ [target |-> -1, tstyle |-> "abs"] >>
 Dirs == {1, 3, 5, 8}
 Files == {2, 4, 6, 7, 9, 10}
 (* mode 0 makes a directory unlistable / a file unreadable for the unprivileged user the search runs as *)
@@ -52,7 +54,7 @@ DirQuery == CASE path = "streamed" -> "select inode, path from '.'" \o Mode \o "
               [] path = "aggregate" -> "select count(*), count(*) from '.'" \o Mode \o " into list"
 FileQuery == CASE path = "metadata" -> "select path, size, mode, hardlinks from '.' into list"
                [] path = "content" -> "select path, line_count, sha1, is_shebang from '.' into list"
-               [] path = "aggregate" -> "select count(*), sum(size), sum(line_count), max(size) from '.' into list"
+               [] path = "aggregate" -> "select count(*), sum(size), sum(line_count), max(size), min(line_count), max(line_count) from '.' into list"
                [] path = "media" -> "select path, width, height, line_count from '.' into list"
 PipeQuery == (CASE path = "streamed" -> "select name, size, path from '.'"
                 [] path = "ordered" -> "select name, size, path from '.' order by name"
@@ -82,7 +84,7 @@ Scenario ==
         [prop |-> "C17", kind |-> kind, class |-> "unreadable=" \o SetText(badfiles) \o "/" \o path,
          world |-> W({}, badfiles), bad |-> badfiles, path |-> path, k |-> 0, digests |-> TRUE,
          env |-> [tz |-> "UTC", cwd |-> 0, uid |-> 65534],
-         runs |-> << [tag |-> "q", ncols |-> 4, argv |-> <<FileQuery>>] >>]
+         runs |-> << [tag |-> "q", ncols |-> IF path = "aggregate" THEN 6 ELSE 4, argv |-> <<FileQuery>>] >>]
     [] kind = "pipe" ->
         [prop |-> "C17", kind |-> kind, class |-> "stdout-closed/" \o fmt \o "/" \o path, world |-> "Big", bad |-> {}, path |-> path, k |-> k,
          env |-> [tz |-> "UTC", cwd |-> 0],
